@@ -155,6 +155,16 @@ def check_pair(numpoly, a, b, fails):
         got = to_model(w)[()]
         if not (got == want):
             return fail("value-2d", "got %r expected %r" % (got, want))
+        # (q1**(a+b) + 5*q1**2 + q0) * (3*q0): the lexicographically last product tuple (2,0) is small,
+        # another one, (1,a+b), is large
+        if a + b > 2:
+            u = numpoly.polynomial_from_attributes([[0, a + b], [0, 2], [1, 0]], [1, 5, 1], ("q0", "q1"))
+            v = numpoly.polynomial_from_attributes([[1, 0]], [3], ("q0", "q1"))
+            want = (mono_model(("q0", "q1"), [[0, a + b], [0, 2], [1, 0]], [1, 5, 1])
+                    * mono_model(("q0", "q1"), [[1, 0]], [3]))
+            got = to_model(u * v)[()]
+            if not (got == want):
+                return fail("value-last-small", "got %r expected %r" % (got, want))
     except MalformedPoly as err:
         return fail("malformed", str(err))
     except Exception as err:
